@@ -263,6 +263,13 @@ def divLoop (dw d : Nat) : Nat → Nat × Nat → Nat × Nat
 `remainder = cat(ConstUInt(0, denomW), numerator)` -/
 def longDivision (nw dw n d : Nat) : Nat × Nat := divLoop dw d nw (0, n)
 
+/-- `if (stepsPerPipelineReg != 0 && i % stepsPerPipelineReg == 0) workingSlice = pipestage(workingSlice);` for `i = numW … 1`:
+number of pipeline stages on the way to the quotient (= latency in clock cycles once retiming has balanced the inputs).
+The hint of the last iteration (`i = 1`, only taken for `stepsPerPipelineReg = 1`) sits behind the last quotient bit: it is on no
+path to the result and spawns no register. -/
+def longDivisionStages (nw steps : Nat) : Nat :=
+  if steps = 0 then 0 else ((List.range nw).filter fun j => j ≥ 1 && (j + 1) % steps == 0).length
+
 /-- signed variant (math.cpp:50-70): sign-magnitude around the unsigned divider -/
 def longDivisionS (nw dw n d : Nat) : Nat :=
   let sign := nw ≠ 0 ∧ n.testBit (nw - 1)
